@@ -40,6 +40,11 @@ def cases(tier, seed):
         cs.append({'kind': 'targets', 'targets': t, 'seed': rng.randrange(1 << 30)})
     for i in range(3 if tier == 'quick' else 12):
         cs.append({'kind': 'targets', 'targets': {cat: pools[cat][(i * 7) % len(pools[cat])] for cat in pools}, 'unknown_cat': ['kex', 'key', 'enc', 'mac'][i % 4], 'seed': rng.randrange(1 << 30)})
+    # unknown names of ChaCha / CBC / ETM shape: they must stay flagged as unknown in every Terrapin context (marker present or absent, exposed or not)
+    shaped = [('enc', 'zzaria256-cbc'), ('enc', 'chacha20-poly1305@zz.example'), ('mac', 'zz-hmac-sha3-256-etm@openssh.com'), ('enc', 'zzcamellia-cbc@ssh.com')]
+    for i, (cat, name) in enumerate(shaped if tier == 'thorough' else shaped[:3]):
+        t = {c_: [n for n in pools[c_] if not gen.is_terrapin_shape(n)][i] for c_ in pools}
+        cs.append({'kind': 'targets', 'targets': t, 'unknown_cat': cat, 'unknown_name': name, 'seed': rng.randrange(1 << 30)})
     return cs
 
 
@@ -65,8 +70,9 @@ def run_case(c):
         targets['kex'] = audit.gss_instance(rng, fam, forced=rng.choice([None, '+', '/']))
     unknown_cat = c.get('unknown_cat')
     if unknown_cat:
-        targets[unknown_cat] = audit.unknown_name(rng)
-    pin_marker = any(gen.is_terrapin_shape(targets[cat]) for cat in ('enc', 'mac'))
+        targets[unknown_cat] = c.get('unknown_name') or audit.unknown_name(rng)
+    pin_marker = any(gen.is_terrapin_shape(targets[cat]) for cat in ('enc', 'mac')) and not c.get('unknown_name')
+    exposing = {'enc': ['hmac-sha2-256-etm@openssh.com'], 'mac': ['aes128-cbc']} if c.get('unknown_name') else None
     neigh = {cat: [n for n in names[cat] if not n.endswith('-*') and n != targets[cat] and not gen.is_terrapin_shape(n) and n not in (MARK_S, MARK_C)] for cat in ('kex', 'key', 'enc', 'mac')}
     obs = {cat: [] for cat in targets}   # (context label, canon notes | 'unknown' marker)
     counters = {'observations': 0, 'json_views': 0, 'client_views': 0, 'lookup_views': 0}
@@ -79,7 +85,13 @@ def run_case(c):
             ns = rng.sample(neigh[cat], 2)
             t = targets[cat]
             lists[cat] = {'alone': [t], 'first': [t] + ns, 'middle': [ns[0], t, ns[1]], 'last': ns + [t]}[pos]
-        marker = pin_marker or rng.random() < .5
+        if exposing:
+            # put the partner shape beside the unknown name so that the published rule calls it exposed when the marker is absent
+            if unknown_cat == 'enc':
+                lists['mac'] = lists['mac'] + exposing['enc']
+            else:
+                lists['enc'] = lists['enc'] + exposing['mac']
+        marker = pin_marker or (rng.random() < .5 if not exposing else contexts.index((pos, role, fmt)) % 2 == 1)
         if marker:
             lists['kex'] = lists['kex'] + [MARK_C if role == 'client' else MARK_S]
         script = {'banner': 'SSH-2.0-OpenSSH_9.%d' % rng.randint(0, 9), 'kex': audit.sym_kex(lists['kex'], lists['key'], lists['enc'], lists['mac']), 'hostkeys': {}, 'hostkey_default': None, 'gex': None}
